@@ -28,6 +28,19 @@ CHECKS = {
              "translator, kernel.",
         tech="Coq proof (generic offset theorem by induction on layouts; table equality by computation) + translator + sentinel correspondence",
     ),
+    "C08": dict(
+        text="Coq theorem C08_add_strings_correct about a hand model of the STR/STRx editors (w = 2 | 4): for every "
+             "well-formed table (nothing assumed about offset order, sharing, interior pointers, unreferenced data, "
+             "emptiness) and every request list, existing ids keep their text, every requested string gets an id "
+             "resolving to exactly it, data only grows by distinct not-yet-resolvable strings, the result is "
+             "well-formed, and a second add is a no-op; plus STR->STRx preserves the id->text map. Tie: correspondence "
+             "of the model with the real editors / generator / lookup builder on grammar-generated tables, and the "
+             "property judged on encoded bytes by an independent resolver.",
+        ref="DESIGN.md 5.6",
+        note="Hypotheses: 7-bit NUL-free strings (non-7-bit authored strings are a separate finding under C04/C11); "
+             "offsets within the field width, otherwise encode raises. Model is hand-written; tie is differential.",
+        tech="Coq proof (list/offset arithmetic, refinement to an id->text view) + differential correspondence",
+    ),
     "C12": dict(
         text="Coq theorems over tables regenerated from the source on every run: complete in-kernel sweeps of all 256 / 65536 "
              "flag numbers and all boolean vectors for the six flag codecs; an unbounded (all n : N) exactness theorem for "
@@ -90,7 +103,7 @@ def main():
         }],
         "checks": checks,
         "not_applicable": [{"property_id": p, "reason": NOT_YET} for p in ALL if p not in CHECKS],
-        "notes": "fix: commits in /repo: 7837be1 (C01/C19 section names). See KNOWN_FINDINGS.txt and DESIGN.md.",
+        "notes": "fix: commits in /repo: 7837be1 (C01/C19 section names), 31ffbf5 + 5fe88e1 (C08 string editor). See KNOWN_FINDINGS.txt and DESIGN.md.",
     }
     Path("/verif/MANIFEST.json").write_text(json.dumps(m, indent=1) + "\n")
 
